@@ -173,6 +173,8 @@ pub async fn run_history(mock: &Arc<Mock>, h: &History, cfg: &RunCfg) -> Outcome
     let key = universe_key(h.namespace.as_deref(), h.label_selector.as_deref());
     let universe = Universe::new(&h.initial);
     universe.lock().stream_lag = h.stream_lag.unwrap_or(0);
+    // every third history talks to a slow API server: list pages take 150 ms each
+    universe.lock().list_delay_ms = if h.id % 3 == 1 { 150 } else { 0 };
     for e in &h.pre_events {
         universe.apply(&e.kind, &e.object);
     }
@@ -345,12 +347,24 @@ async fn judge(
     let mut stable_since: Option<Instant> = None;
     let mut polls = 0u64;
     let mut confirm_pending = false;
+    let mut dropped_meanwhile: Option<(String, u64)> = None;
     let (final_snapshot, final_mismatches, delivered_at_end, settle) = loop {
         let snapshot = match adapter.discover().await {
             Ok(t) => to_seen(t),
             Err(e) => return Err(format!("discover() returned an error: {e}")),
         };
         polls += 1;
+        // "at all times": while a re-list (or any other step) is under way, a server this step says
+        // nothing new about keeps being offered - whatever is being staged, the offer is only ever
+        // replaced by what was observed
+        if info.index >= 0 && dropped_meanwhile.is_none() {
+            for name in reference.offered_names() {
+                if !info.changed.contains(&name) && !info.causes.contains_key(&name) && !skip.contains(&name) && !snapshot.iter().any(|s| s.identifier == name) {
+                    dropped_meanwhile = Some((name, t_step.elapsed().as_millis() as u64));
+                    break;
+                }
+            }
+        }
         let status = universe.status(mark);
         let delivered = status.all_flushed && status.live_ready && !status.list_fail_pending;
         let mismatches = reference.compare(&snapshot, skip);
@@ -386,6 +400,16 @@ async fn judge(
         tokio::time::sleep(POLL).await;
     };
     out.count("discover() snapshots compared", polls);
+    if let Some((name, at_ms)) = &dropped_meanwhile {
+        let late = cfg.lateness.max_since(t_step);
+        if late < BOUND_ORDINARY / 4 {
+            out.findings.push(Finding {
+                signature: format!("missing-during/{}", info.kind),
+                what: format!("{name}: not offered {at_ms} ms into step {} ({}) although this step observed nothing new about it and it was offered before and after (history {})", info.index, info.kind, h.id),
+                witness: json!({"history": h.to_json(), "failed_step": info.index, "server": name, "ms_into_the_step": at_ms, "step": info.json, "expected_offered_set": reference.offered_names(), "mock_requests": universe.lock().requests.clone()}),
+            });
+        }
+    }
     let waited = t_step.elapsed();
     let mut step_trace = info.json.clone();
     step_trace["step"] = json!(info.index);
